@@ -17,5 +17,6 @@ CONSTANTS
   Modes = {"entity", "cdata"}
   W <- WSharedNull
   RootKinds = {"inst", "class", "prop", "pval", "qual", "qdecl"}
+  EmbPaths = FALSE
 INVARIANT ImplMeetsReq
 CHECK_DEADLOCK FALSE
